@@ -563,7 +563,7 @@ def moment(a, order, axis=None, dtype=None, keepdims=False, ddof=0, split_every=
     if order < 2:
         from dask_array.creation import ones, zeros
 
-        reduced = a.sum(axis=axis)  # get reduced shape and chunks
+        reduced = a.sum(axis=axis, keepdims=keepdims)  # get reduced shape and chunks
         if order == 0:
             # When order equals 0, the result is 1, by definition.
             return ones(reduced.shape, chunks=reduced.chunks, dtype="f8", meta=reduced._meta)
